@@ -992,6 +992,7 @@ static void ZSTDMT_releaseAllJobResources(ZSTDMT_CCtx* mtctx)
 {
     unsigned jobID;
     DEBUGLOG(3, "ZSTDMT_releaseAllJobResources");
+    if (mtctx->jobs == NULL) return;   /* jobs table allocation failed */
     for (jobID=0; jobID <= mtctx->jobIDMask; jobID++) {
         /* Copy the mutex/cond out */
         ZSTD_pthread_mutex_t const mutex = mtctx->jobs[jobID].job_mutex;
